@@ -864,6 +864,37 @@ def symmetric_difference(a, b):
     return union(difference(a, b), difference(b, a))
 
 
+# Sets whose elements are composite (dictionaries): modelled as lists without
+# duplicates, decided with eq only - two dictionaries with the same key/value
+# pairs are one element whatever the order their keys were inserted in.
+def uniq(c):
+    return distinct(c)
+
+
+def uniq_union(a, b):
+    return distinct(list(a) + list(b))
+
+
+def uniq_intersect(a, b):
+    return [x for x in distinct(a) if member(x, b)]
+
+
+def uniq_difference(a, b):
+    return [x for x in distinct(a) if not member(x, b)]
+
+
+def uniq_symmetric_difference(a, b):
+    return uniq_difference(a, b) + uniq_difference(b, a)
+
+
+def uniq_subset(a, b):
+    return all(member(x, b) for x in a)
+
+
+def uniq_equal(a, b):
+    return uniq_subset(a, b) and uniq_subset(b, a)
+
+
 def set_le(a, b):
     # '<=': "true if left set is subset of right set"
     return len(difference(a, b)) == 0
